@@ -51,13 +51,22 @@ pub fn run_ops(
     true
 }
 
-/// timeouts >= 2^61 stand for `Duration::MAX`
+/// timeouts >= 2^61 stand for durations that do not fit into 64-bit nanoseconds:
+/// 2^61 + 1 for `Duration::from_secs(1 << 55)` (whose nanoseconds are a multiple of 2^64),
+/// 2^61 + 2 for `Duration::new(18_446_744_073, 709_551_617)` (2^64 + 1 ns), anything else for
+/// `Duration::MAX`
 pub const TIMEOUT_MAX: i64 = 1 << 61;
+pub const TIMEOUT_2_55_SECS: i64 = (1 << 61) + 1;
+pub const TIMEOUT_2_64_PLUS_1: i64 = (1 << 61) + 2;
 
 /// a negative timeout stands for a scanner created through `Default::default()` (timeout zero)
 pub fn new_scanner(timeout: i64) -> PollingParameterNumberMessageScanner {
     if timeout < 0 {
         Default::default()
+    } else if timeout == TIMEOUT_2_55_SECS {
+        PollingParameterNumberMessageScanner::new(Duration::from_secs(1 << 55))
+    } else if timeout == TIMEOUT_2_64_PLUS_1 {
+        PollingParameterNumberMessageScanner::new(Duration::new(18_446_744_073, 709_551_617))
     } else if timeout >= TIMEOUT_MAX {
         PollingParameterNumberMessageScanner::new(Duration::MAX)
     } else {
@@ -107,11 +116,15 @@ pub fn exec(tag: i64, inp: &[i64]) -> Vec<i64> {
     }
 }
 
-pub const TIMEOUTS: [i64; 7] = [0, 1, 5, 1000, 1 << 60, TIMEOUT_MAX, -1];
+pub const TIMEOUTS: [i64; 13] = [0, 1, 5, 1000, 1 << 60, TIMEOUT_MAX, -1, 1_000_000, 10_000_000,
+    1_234_567_891, 60_000_000_000, TIMEOUT_2_55_SECS, TIMEOUT_2_64_PLUS_1];
 
 pub fn time_step(r: &mut Rng, timeout: i64) -> i64 {
     let t = timeout.max(0).min(1 << 40);
-    let cands = [0, 1, (t - 1).max(0), t, t + 1, 2 * t + 1, t / 2];
+    // around the timeout at nanosecond resolution; whole seconds / milliseconds later (elapsed
+    // time compared field-wise or in a coarser unit)
+    let cands = [0, 1, (t - 1).max(0), t, t + 1, 2 * t + 1, t / 2, 1_000_000_000, 2_000_000_000,
+                 t + 1_000_000_000, t + 1_000_000, (t / 1_000_000) * 1_000_000, (t / 1_000_000_000 + 1) * 1_000_000_000];
     r.pick(&cands)
 }
 
